@@ -156,7 +156,11 @@ def _gen_op(r, kinds):
         return {"op": k, "n": r.pick([1, 1, 2, 3]), "as_str": r.chance(0.3), "tag": r.randrange(1000)}
     if k == "remove_fields":
         return {"op": k, "ff": [r.randrange(100) for _ in range(r.pick([1, 1, 2]))],
-                "missing": r.chance(0.15), "as_str": r.chance(0.3)}
+                "missing": r.chance(0.15), "as_str": r.chance(0.3),
+                # the FORM of the argument: a name listed more than once (in any position), reversed
+                # order, tuple instead of list (round 15, S-C11o: duplicates were never generated)
+                "dup": r.fork("dup").pick([0, 0, 0, 1, 1, 2]), "dup_at": r.fork("dup").randrange(100),
+                "rev": r.fork("rev").chance(0.3), "form": r.fork("form").pick(["list", "list", "tuple"])}
     if k == "copy_check":
         return {"op": k, "fill": r.randrange(10 ** 6), "idx": [r.randrange(100) for _ in range(3)],
                 # how the copy is made: the class's own copy(), copy.deepcopy, or a pickle round trip
@@ -859,7 +863,16 @@ def run(plan):
                     names.append("no_such_field")
                 if not names:
                     continue
+                if op.get("rev"):
+                    names = names[::-1]
+                for _ in range(op.get("dup", 0)):
+                    if js:      # repeat one of the EXISTING names somewhere in the list
+                        nm = m.fields[js[op.get("dup_at", 0) % len(js)]]
+                        names.insert((op.get("dup_at", 0) // 7) % (len(names) + 1), nm)
+                        bump(probes, "remove_fields_duplicate_name")
                 arg = names[0] if (op["as_str"] and len(names) == 1) else list(names)
+                if op.get("form") == "tuple" and not isinstance(arg, str):
+                    arg = tuple(arg)
                 try:
                     v.remove_fields(arg)
                 except Exception as e:
